@@ -121,7 +121,7 @@ def _closed_outputs(h, prefix):
 
 def _reported(h, rel):
     for lv, msg, tb in h["logs"]:
-        if lv == "ERROR" and ("/simfs/" + rel) in msg.replace("/./", "/"):
+        if lv == "ERROR" and ("/simfs/" + rel) in W.norm_paths(msg):
             return True
     return False
 
